@@ -530,7 +530,8 @@ def long_label_cases(target, tier):
   """species labels of eight characters (block headers have two label fields side by side)"""
   from symx.run import Case
   out = []
-  for i, order in enumerate([("Fe_gamma", "Al", "Fe_alpha"), ("Al", "Fe_alpha")] + ([] if tier == "quick" else [("Fe_alpha", "Fe_gamma")])):
+  # (charge-state labels contain the character that separates the species of a pair key)
+  for i, order in enumerate([("Fe_gamma", "Al", "Fe_alpha"), ("Al", "Fe_alpha"), ("O2-", "Al"), ("F-", "O2-")] + ([] if tier == "quick" else [("Fe_alpha", "Fe_gamma")])):
     cov = EC.covering_pair_states(order, seed=i + 13)
     for j in range(2 if tier == "quick" else 4):
       extra = {}
